@@ -227,7 +227,8 @@ CONFIG["C07"] = dict(
                "For the BLS record the driver runs, the key law is a theorem of the executable model (Props.C07Model, Proofs/BlsFeldman over the E2 group bridge): bls_feldman_identity - the commitment vector (a_k * g2) evaluated 'in the exponent' at x (model of E2_polynomial_image) equals polyEval a x * g2 - and "
                "bls_honest_share_passes_check - the share a(i+1) passes checkLog against the public key shares a receiver derives from the dealer's commitments, for every polynomial, group size and receiver; "
                "bls_vector_reader_accepts_writer (Proofs/BlsLaws: E2 codec round trip, membership of the multiples of g2, chunking) and bls_ops_laws: OpsLaws HOLDS for the BLS record the driver runs, for every polynomial of threshold+1 coefficients, so receiver_accepts_dealer_emission applies to the real record (a zero share, probability 2^-255, is refused by the reader as in the code and is excluded). "
-               "What remains a hypothesis: the delivery itself (these messages arrive in round one, unaltered and once), that every complainer is answered in time with a valid answer, and at most t complainers.",
+               "dealer_answers_complaint / receiver_accepts_dealer_answer (Proofs/DkgAnswer): the dealer's own instance answers a first complaint at once with a(o+1) of the polynomial it drew, and a receiver classifies that broadcast as a valid answer for o - the answer part (hans) of OwnNet for the dealer's own emission. "
+               "What remains a hypothesis: the delivery itself (the dealer's messages arrive in their round, unaltered and once; complaints reach the dealer before the second timeout) and at most t complainers.",
     level_note="Lean kernel + correspondence; reliable broadcast and round synchrony are assumptions of the property, implemented by the scheduler",
     assumptions=["reliable broadcast, round-synchronous delivery, at most t Byzantine participants"],
 )
